@@ -347,3 +347,68 @@ pub proof fn lemma_no_cat<K, V, C: Fn(&K, &K) -> Ordering>(c: C, a: Seq<(K, V)>,
         assert forall|i: int| 0 <= i < b.len() implies ord(c, key, #[trigger] b[i].0) != Ordering::Greater by { assert(s[a.len() + i] == b[i]); }
     }
 }
+
+// ---- sequence edits used in the insert / remove contracts ------------------------------------
+pub open spec fn seq_ins<A>(s: Seq<A>, p: int, e: A) -> Seq<A> {
+    s.subrange(0, p) + seq![e] + s.subrange(p, s.len() as int)
+}
+
+pub open spec fn seq_del<A>(s: Seq<A>, i: int) -> Seq<A> {
+    s.subrange(0, i) + s.subrange(i + 1, s.len() as int)
+}
+
+pub proof fn lemma_sorted_insert<K, V, C: Fn(&K, &K) -> Ordering>(c: C, a: Seq<(K, V)>, e: (K, V), b: Seq<(K, V)>)
+    requires cmp_laws(c), sorted(c, a + b), all_lt(c, a, e.0), all_gt(c, b, e.0),
+    ensures sorted(c, a + seq![e] + b),
+{
+    let s = a + b;
+    let t = a + seq![e] + b;
+    assert forall|i: int, j: int| 0 <= i < j < t.len() implies ord(c, #[trigger] t[i].0, #[trigger] t[j].0) == Ordering::Less by {
+        if j < a.len() {
+            assert(t[i] == s[i]); assert(t[j] == s[j]);
+        } else if j == a.len() {
+            assert(t[i] == a[i]); assert(t[j] == e);
+            law_flip(c, e.0, a[i].0);
+        } else if i < a.len() {
+            assert(t[i] == s[i]); assert(t[j] == s[j - 1]);
+        } else if i == a.len() {
+            assert(t[i] == e); assert(t[j] == b[j - a.len() - 1]);
+        } else {
+            assert(t[i] == s[i - 1]); assert(t[j] == s[j - 1]);
+        }
+    }
+}
+
+pub proof fn lemma_sorted_delete<K, V, C: Fn(&K, &K) -> Ordering>(c: C, a: Seq<(K, V)>, e: (K, V), b: Seq<(K, V)>)
+    requires sorted(c, a + seq![e] + b),
+    ensures sorted(c, a + b),
+{
+    let s = a + b;
+    let t = a + seq![e] + b;
+    assert forall|i: int, j: int| 0 <= i < j < s.len() implies ord(c, #[trigger] s[i].0, #[trigger] s[j].0) == Ordering::Less by {
+        let ii = if i < a.len() { i } else { i + 1 };
+        let jj = if j < a.len() { j } else { j + 1 };
+        assert(t[ii] == s[i]); assert(t[jj] == s[j]);
+    }
+}
+
+// sortedness only looks at keys
+pub proof fn lemma_sorted_same_keys<K, V, C: Fn(&K, &K) -> Ordering>(c: C, s: Seq<(K, V)>, t: Seq<(K, V)>)
+    requires sorted(c, s), s.len() == t.len(), forall|i: int| 0 <= i < s.len() ==> #[trigger] s[i].0 == t[i].0,
+    ensures sorted(c, t),
+{
+    assert forall|i: int, j: int| 0 <= i < j < t.len() implies ord(c, #[trigger] t[i].0, #[trigger] t[j].0) == Ordering::Less by {
+        assert(s[i].0 == t[i].0); assert(s[j].0 == t[j].0);
+    }
+}
+
+// a sequence that is entirely below key and entirely above key is empty
+pub proof fn lemma_lt_gt_empty<K, V, C: Fn(&K, &K) -> Ordering>(c: C, s: Seq<(K, V)>, key: K)
+    requires all_lt(c, s, key), all_gt(c, s, key),
+    ensures s.len() == 0,
+{
+    if s.len() > 0 {
+        assert(ord(c, key, s[0].0) == Ordering::Less);
+        assert(ord(c, key, s[0].0) == Ordering::Greater);
+    }
+}
